@@ -368,6 +368,131 @@ def transaction_lifecycle(ctx, pfx):
            'commit returns the whole log, only sorted by transaction_priority' if good else detail, key='RF-BIND|commit.whole_log_sorted')
 
 
+def begin_has_no_side_effect(ctx, pfx):
+    """a refused begin must not touch the pending log: Transaction::begin_transaction
+    performs nothing but the atomic swap (mutation of `mods` allowed only on the
+    edge where the swap returned false, i.e. this caller now owns the transaction)"""
+    prog = ctx.prog
+    bt = prog.one(TX + 'begin_transaction')
+    bad = []
+    for ev in bt.events():
+        for c in ev['calls']:
+            if isinstance(c, tuple) and c[0] == 'call' and c[3] and has_leaf(arg(c, 0), 'self.mods'):
+                nm = (short(c[2] or c[1]) or '').split('::')[-1]
+                if nm in ('deref', 'len', 'is_empty', 'iter', 'get', 'contains_key'):
+                    continue
+                own = decisions(bt, lambda fc: fc[0] == 'pred' and fc[1].endswith('::swap'))
+                ok = any(d['false'] is not None and edge_dominates(bt, (d['block'], d['false']), ev['pos'][0]) for d in own)
+                if not ok:
+                    bad.append('%s at line %s' % (nm, ev['line']))
+    ctx.ob('%s.EFFECT.begin_pure' % pfx, 'RF-EFFECT', not bad, bt.path, '%s:%s' % (bt.file, bt.line),
+           'begin_transaction performs only the atomic swap: a refused begin leaves the pending log untouched' if not bad else
+           'begin_transaction mutates the pending log (%s) even when the begin is refused: a second begin wipes the open '
+           'transaction\'s writes' % ', '.join(bad), key='RF-EFFECT|begin_pure')
+
+
+def _map_only(e):
+    """HashMap::get(m, k) -> m : classify a looked-up value by the map, not by the key"""
+    if not isinstance(e, tuple):
+        return e
+    if e and e[0] == 'call' and (short(e[2] or e[1]) or '').endswith('HashMap::get') and e[3]:
+        return _map_only(e[3][0])
+    return tuple(_map_only(x) if isinstance(x, tuple) else x for x in e)
+
+
+def _pending(x):
+    x = _map_only(strip_mut(x))
+    return has_leaf(x, 'transaction_value') or any(True for _ in calls_in(x, ('Transaction::get_users_states', 'Transaction::get_user_state')))
+
+
+def _stored(x):
+    x = _map_only(strip_mut(x))
+    return (has_leaf(x, 'state_epoch') or has_leaf(x, 'db_value') or
+            any(True for _ in calls_in(x, ('Database::get_user_state_versions', 'Database::get_user_state')))) and not _pending(x)
+
+
+def merge_table(ctx, pfx):
+    """RF-GUARD decision table for merging a pending record with the database
+    record, per ValueStateRetrievalFlag variant: SpecificVersion/SpecificEpoch:
+    pending always wins; LeqEpoch/MaxEpoch: pending wins iff it is at least as
+    new (ties -> pending); MinEpoch: pending wins iff it is at most as old."""
+    prog = ctx.prog
+    sites = []
+    for fn in ('compare_db_and_transaction_records', 'get_user_state_versions', 'get_user_state'):
+        bs = prog.find(SM + fn)
+        if bs:
+            b = prog.fn_and_inner(SM + fn)
+            ve = variant_edges(b, lambda x: (access_path(x) or '').split('.')[0] == 'flag' or
+                               (x[0] == 'field' and has_leaf(x, 'flag') and x[1][0] == 'tuple'))
+            for v in ve:
+                sites.append((fn, b, v))
+    n = 0
+    for fn, b, v in sites:
+        tg = dict(v['edges'])
+        for val, nm in v['names'].items():
+            tg.setdefault(nm, v['else'])
+        for variant, tgt in sorted(tg.items()):
+            hdrs0 = [pos[0] for pos, tt in b.call_sites() if (short(tt.get('res') or tt.get('fn')) or '').endswith('::next')]
+            decs = symbolic_decisions(b, tgt, stop_blocks=[v['block']] + hdrs0)
+            rel_decs = []
+            for d in decs:
+                for truth, edge in ((True, d['true']), (False, d['false'])):
+                    pass
+                c = norm_bool(d['cond'], True)
+                if len(c) == 1 and c[0][0] == 'rel' and any(_pending(x) for x in c[0][2:4]) and any(_stored(x) for x in c[0][2:4]):
+                    rel_decs.append((d, c[0]))
+            oid = '%s.TABLE[%s:%s]' % (pfx, fn, variant)
+            where = '%s:%s' % (b.file, v['line'])
+            if variant in ('SpecificVersion', 'SpecificEpoch'):
+                ok = not rel_decs
+                ctx.ob(oid, 'RF-GUARD', ok, b.path, where, 'pending record always replaces the database record' if ok else
+                       'an exact-match flag compares epochs before taking the pending record', key='RF-GUARD|TABLE|%s|%s' % (fn, variant))
+                n += 1
+                continue
+            if not rel_decs:
+                ctx.ob(oid, 'RF-GUARD', False, b.path, where, 'no comparison of pending and stored record decides the %s arm' % variant,
+                       key='RF-GUARD|TABLE|%s|%s' % (fn, variant))
+                n += 1
+                continue
+            good = True
+            why = ''
+            for d, r in rel_decs:
+                # which side takes the pending record?  the side from which a "take" action is reachable
+                def takes(t):
+                    if t is None:
+                        return False
+                    ks = b.exits((t, 0))
+                    if b.raw['locals'][0]['ty'].startswith('std::option::Option'):
+                        return 'Ok' in ks and 'Err' not in ks
+                    ins = [ev['pos'][0] for ev, c in find_events(b, 'HashMap::insert')] + \
+                          [pos[0] for pos, e in ok_aggregates(b) if 'transaction_value' in show(e)]
+                    hdrs = [pos[0] for pos, tt in b.call_sites() if (short(tt.get('res') or tt.get('fn')) or '').endswith('::next')]
+                    reach = b.reach_avoiding([t], avoid_blocks=[v['block']] + hdrs)
+                    return any(x in reach for x in ins)
+                t_true, t_false = takes(d['true']), takes(d['false'])
+                if t_true == t_false:
+                    good = False
+                    why = 'cannot tell which side of %s takes the pending record' % show(d['cond'])[:80]
+                    continue
+                cond_take = norm_bool(d['cond'], True if t_true else False)[0]
+                pend = _pending
+                # canonical: ('rel', 'le', a, b) means a <= b
+                if variant in ('LeqEpoch', 'MaxEpoch'):
+                    want = cond_take[1] == 'le' and not pend(cond_take[2]) and pend(cond_take[3])
+                    desc = 'stored <= pending (ties -> pending)'
+                else:
+                    want = cond_take[1] == 'le' and pend(cond_take[2]) and not pend(cond_take[3])
+                    desc = 'pending <= stored (ties -> pending)'
+                if not want:
+                    good = False
+                    why = 'pending record is taken when %s %s %s, expected %s' % (show(cond_take[2])[:50], cond_take[1], show(cond_take[3])[:50], desc)
+            n += 1
+            ctx.ob(oid, 'RF-GUARD', good, b.path, where,
+                   '%s: pending record wins iff %s' % (variant, 'stored <= pending' if variant != 'MinEpoch' else 'pending <= stored') if good else
+                   '%s arm: %s' % (variant, why), key='RF-GUARD|TABLE|%s|%s' % (fn, variant))
+    ctx.ob('%s.TABLE.count' % pfx, 'FLOOR', n >= 5, SM, None, '%d (function, flag variant) merge decisions checked' % n)
+
+
 def flags_exhaustive(ctx, pfx):
     prog = ctx.prog
     for fn, path in (('find_appropriate_item', TX + 'find_appropriate_item'),
